@@ -14,15 +14,15 @@ git -C /repo worktree remove --force "$wt" >/dev/null 2>&1
 git -C /repo worktree add --detach "$wt" HEAD >/dev/null 2>&1 || { echo "cannot create worktree"; exit 2; }
 cp "$dst/demo_test.go" "$wt/$pkg/zz_seed_demo_test.go"
 echo "--- demo WITHOUT patch"
-(cd "$wt" && go test -count=1 -vet=off -timeout 600s -run "$run" "./$pkg/" 2>&1 | tail -3) | tee "$dst/demo_without.txt"
+(cd "$wt" && unshare -n sh -c "ip link set lo up; exec \"\$@\"" -- go test -count=1 -vet=off -timeout 600s -run "$run" "./$pkg/" 2>&1 | tail -3) | tee "$dst/demo_without.txt"
 (cd "$wt" && git apply "$dst/patch.diff") || { echo "patch does not apply"; git -C /repo worktree remove --force "$wt"; exit 2; }
 echo "--- demo WITH patch"
-(cd "$wt" && go test -count=1 -vet=off -timeout 600s -run "$run" "./$pkg/" 2>&1 | tail -5) | tee "$dst/demo_with.txt"
+(cd "$wt" && unshare -n sh -c "ip link set lo up; exec \"\$@\"" -- go test -count=1 -vet=off -timeout 600s -run "$run" "./$pkg/" 2>&1 | tail -5) | tee "$dst/demo_with.txt"
 rm -f "$wt/$pkg/zz_seed_demo_test.go"
 if [ "${SEED_FULL:-0}" = "1" ]; then
   echo "--- existing tests WITH patch (packages touched)"
   pk=$(cd "$wt" && git diff --name-only | xargs -n1 dirname | sort -u | sed 's#^#./#')
-  (cd "$wt" && go test -count=1 -vet=off -timeout 25m $pk 2>&1 | tail -5) | tee "$dst/existing_with.txt"
+  (cd "$wt" && unshare -n sh -c "ip link set lo up; exec \"\$@\"" -- go test -count=1 -vet=off -timeout 25m $pk 2>&1 | tail -5) | tee "$dst/existing_with.txt"
 fi
 git -C /repo worktree remove --force "$wt"
 echo "--- check $prop with the patch applied to /repo"
